@@ -106,6 +106,7 @@ class Runtime(object):
         self.cfg = cfg
         self.beh = dict(cfg.get('beh') or {})
         self.flavour = dict(cfg.get('resp_flavour') or {})    # fid -> 'response' | 'base' | 'http'
+        self.ctx_flavour = cfg.get('ctx_flavour')              # what a non-Response result is: a marker object, bytes, text, a container
         self.exc_flavour = dict(cfg.get('exc_flavour') or {})  # fid -> 'plain' | 'http' (an HTTPException that is raised)
         self.by_id = {}
         self.keep = []
@@ -231,13 +232,37 @@ class Runtime(object):
                     # an HTTP error of the underlying library, not clastic's own: to the framework an exception like any other
                     import werkzeug.exceptions
                     o = werkzeug.exceptions.NotFound('exc:%s:%s' % (fid, tok))
+                elif (self.exc_flavour.get(fid) or '').startswith('builtin:'):
+                    # application code raises the built-in exceptions too - TypeError, KeyError, AttributeError ... are not
+                    # the framework's to interpret
+                    import builtins
+                    o = getattr(builtins, self.exc_flavour[fid][8:])('exc:%s:%s' % (fid, tok))
                 elif self.exc_flavour.get(fid) == 'http':
                     from clastic.errors import Conflict
                     o = Conflict(detail='exc:%s:%s' % (fid, tok))
                 else:
                     o = (FrozenSpyError if zlib.crc32(fid.encode()) % 2 else SpyError)(fid, tok)
             else:
-                o = Marker(['ctx', fid])
+                cf = self.ctx_flavour
+                label = 'ctx:%s:%s' % (fid, tok)
+                if cf == 'bytes-binary':
+                    o = b'\xff\xfe\x89PNG ' + label.encode()
+                elif cf == 'bytes-latin1':
+                    o = ('caf\u00e9 ' + label).encode('latin-1')
+                elif cf == 'bytes-text':
+                    o = ('caf\u00e9 ' + label).encode('utf-8')
+                elif cf == 'bytearray':
+                    o = bytearray(b'\x80\x81 ' + label.encode())
+                elif cf == 'str':
+                    o = 'caf\u00e9 ' + label
+                elif cf == 'dict':
+                    o = {'ctx': label}
+                elif cf == 'list':
+                    o = [label]
+                elif cf == 'empty-dict':
+                    o = {}
+                else:
+                    o = Marker(['ctx', fid])
             tr['made'][id(o)] = [kind, fid]
             tr['keep'].append(o)
             return o
